@@ -177,6 +177,10 @@ func (d *Dynamic) Draw(ctx vxfw.DrawContext) (vxfw.Surface, error) {
 		colOffset = 2
 	}
 
+	// Number of consecutive widgets drawn that did not add to the
+	// accumulated height
+	var stalled int
+
 	// Loop through widgets to draw
 	for {
 		// Get the widget at this index
@@ -214,6 +218,20 @@ func (d *Dynamic) Draw(ctx vxfw.DrawContext) (vxfw.Surface, error) {
 		}
 		// If we have accumulated enough height, we are done
 		if ah >= int(ctx.Max.Height) {
+			break
+		}
+		// A widget without height (and no gap) does not bring us any
+		// closer to that, and the builder may never run out of them:
+		// every widget is empty, or there is no room for any because
+		// the viewport is no wider than the cursor gutter. Stop trying
+		// to fill the viewport after as many consecutive ones as the
+		// viewport has rows
+		if int(chS.Size.Height)+d.Gap > 0 {
+			stalled = 0
+			continue
+		}
+		stalled += 1
+		if stalled > int(ctx.Max.Height) {
 			break
 		}
 	}
